@@ -94,7 +94,7 @@ def gate():
     return bad
 
 
-def build_all(models=None, log=None, jobs=16):
+def build_all(models=None, targets=None, jobs=16):
     """Full .vo build (never -vos) + extraction + ocamlopt for the requested models (all if None)."""
     os.makedirs(OUT, exist_ok=True)
     lock = open(os.path.join(COQ, ".lock"), "w")
@@ -108,7 +108,10 @@ def build_all(models=None, log=None, jobs=16):
             rc, o = sh("coq_makefile -f _CoqProject -o Makefile", 120, cwd=COQ)
             if rc:
                 raise CheckAbort("coq_makefile failed:\n" + o)
-        rc, o = sh("timeout 3000 make -j%d 2>&1" % jobs, 3100, cwd=COQ)
+        # targets=None: the full development (setup); otherwise only what the property needs, so that a
+        # half-edited file of another property cannot break this one
+        tg = "" if targets is None else " ".join(targets)
+        rc, o = sh("timeout 3000 make -j%d %s 2>&1" % (jobs, tg), 3100, cwd=COQ)
         if rc:
             raise CheckAbort("coq build failed:\n" + o[-4000:])
         exs = sorted(glob.glob(os.path.join(COQ, "Run", "Ex*.v")))
@@ -117,6 +120,11 @@ def build_all(models=None, log=None, jobs=16):
             if models is not None and name not in [m.lower() for m in models]:
                 continue
             exe = os.path.join(OUT, "run_" + name)
+            if targets is not None:   # make sure the model the Ex file needs is compiled
+                need = re.findall(r"\b(Model\.\w+|Base\.\w+)", open(ex).read())
+                rc, o = sh("timeout 3000 make -j%d %s 2>&1" % (jobs, " ".join(n.replace(".", "/") + ".vo" for n in need)), 3100, cwd=COQ)
+                if rc:
+                    raise CheckAbort("coq build of %s failed:\n%s" % (need, o[-4000:]))
             deps = [ex, os.path.join(COQ, "Run", "driver.ml")] + [os.path.join(COQ, f[:-2] + ".vo") for f in files if f.startswith(("Model", "Base"))]
             if os.path.exists(exe) and all(os.path.getmtime(d) <= os.path.getmtime(exe) for d in deps if os.path.exists(d)):
                 continue
@@ -189,7 +197,7 @@ class Check:
         bad = gate()
         if bad:
             raise CheckAbort("forbidden construct in Coq development: %r" % bad[:5])
-        build_all(models)
+        build_all(models, targets=["Props/%s.vo" % self.pid])
         self.models = models
 
     def props(self, extra_files=()):
